@@ -46,7 +46,7 @@ CONSTANTS
                  \* pass-through dimensions vary one at a time around the default
     Rels         \* relations exercised: subset of RelAll
 
-RelAll == {"none", "shift", "rescale", "scale", "negscale", "premult", "coslat_as_weights",
+RelAll == {"none", "shift", "rescale", "scale", "negscale", "premult", "coslat_as_weights", "weights_by_label",
            "permute_features", "permute_samples", "transpose",
            \* C10: another model configuration that must give the same result
            "id_mca_self", "id_complex_of_real", "id_eeof_single_embedding", "id_sparse_no_penalty"}
@@ -155,6 +155,10 @@ Admissible(c) ==
     /\ c.rel = "rescale" => (c.std /\ c.center)
     /\ c.rel = "premult" => (c.wp # "ones" /\ ~c.std)   \* standardising pre-multiplied data would cancel the weights
     /\ c.rel = "coslat_as_weights" => (c.lp \notin {"none"} /\ c.wp = "ones")
+    \* the same weights stored in the reverse coordinate order: they belong to their labels, not to positions; only
+    \* weight patterns that are not palindromic can tell the two pairings apart
+    \* (the latitude patterns repeat coordinate values: pairing by label is not defined for them)
+    /\ c.rel = "weights_by_label" => (c.wp # "ones" /\ c.lp = "none" /\ \E j \in 1..P(c) : W4(c.wp, j) # W4(c.wp, P(c) + 1 - j))
     /\ c.rel \in {"permute_features", "transpose", "permute_samples"} => ~IsFrac(c)
     /\ c.rel \in {"id_mca_self", "id_complex_of_real", "id_eeof_single_embedding", "id_sparse_no_penalty"} =>
           (~IsFrac(c) /\ c.dtype = "real" /\ c.cexp = 0 /\ c.center)
@@ -235,6 +239,13 @@ C08_WeightsArePremultiplication ==
     Done => \A j \in 1..P(cfg) : Energy(cfg, j) = Premult(cfg)[j] * C10(cfg.lp, j)
 C08_CoslatIsWeights ==
     Done => \A j \in 1..P(cfg) : Energy(cfg, j) = Base(cfg, j) * W4(cfg.wp, j) * C10(cfg.lp, j)
+\* user weights belong to labels: pairing the reversed weight array by POSITION would give another spectrum (so the
+\* harness comparison of the two fits is not vacuous), pairing by label gives the prediction
+ByPosition(c) == [j \in 1..P(c) |-> Base(c, j) * W4(c.wp, P(c) + 1 - j) * C10(c.lp, j)]
+C08_WeightsAttachByLabel ==
+    (Done /\ cfg.rel = "weights_by_label") =>
+        /\ \A j \in 1..P(cfg) : Energy(cfg, j) = Base(cfg, j) * W4(cfg.wp, j) * C10(cfg.lp, j)
+        /\ (\A j \in 1..P(cfg) : Base(cfg, j) = Base(cfg, 1) /\ Base(cfg, j) > 0) => \E j \in 1..P(cfg) : ByPosition(cfg)[j] # Energy(cfg, j)
 \* standardised: the prediction does not depend on the feature's own scale
 C08_RescaleInvariant ==
     (Done /\ cfg.std) => \A j \in 1..P(cfg) : Energy(cfg, j) \in {0, W4(cfg.wp, j) * C10(cfg.lp, j)}
